@@ -660,6 +660,10 @@ func init() {
 
 func genC12(r *Rng, tier string, idx int) *Plan {
 	p := &Plan{SchedSeed: r.U64()}
+	if idx%4 == 3 {
+		genC12Lin(r, p)
+		return p
+	}
 	n := r.Range(5, 80)
 	nids := r.Range(1, 4)
 	p.Mode = "fault-free"
@@ -776,4 +780,9 @@ func runStorePlan(p *Plan, prop string, timeouts bool) *Result {
 	return res
 }
 
-func runC12(p *Plan) *Result { return runStorePlan(p, "C12", false) }
+func runC12(p *Plan) *Result {
+	if p.Mode == "concurrent-memory" {
+		return runC12Lin(p)
+	}
+	return runStorePlan(p, "C12", false)
+}
